@@ -1,0 +1,9 @@
+//go:build verif
+
+package cli
+
+// ParseAddressForVerif exposes parseAddress to the verification harness in /verif.
+// It is compiled only with the build tag "verif".
+func ParseAddressForVerif(address string) ([]byte, error) {
+	return parseAddress(address)
+}
